@@ -66,11 +66,14 @@ def _work(args: tuple) -> dict:
             for rootk in ("array", "dict"):
                 if rootk == "array" and tier == "quick" and scheme not in ("il", "mixed0"):
                     continue
+                if len(ch) >= 5 and (rootk == "array" or scheme not in (
+                        "il", "mixed0", "mixed1", "call", "send", "stack", "aidx", "csr")):
+                    continue          # 5-node shapes: a subset of the schemes
                 leaf = ("mix" if scheme.startswith("mixed") else
                         "sp" if scheme in ("ilshape", "phshape", "recvshape", "dwshape") else "ph")
                 root, _, _ = H.build_t1(chl, repl, scheme, seed=seed(), leaf=leaf, root=rootk)
                 cases.append((f"t1/s{si}/{scheme}/{rootk}", root))
-        if si % (1 if tier == "thorough" else 3) == 0:
+        if si % 3 == 0:
             for variant in H.T2_VARIANTS:
                 for symbolic in (False, True):
                     if symbolic and variant != "ew":
@@ -170,10 +173,13 @@ def main(tier: str, only: dict | None = None) -> int:
         H = _W["H"]
         kind, s, *rest = only["case"].split("/")
         tier_ = only.get("tier", tier)
-        shapes, _ = c13.generate(4 if tier_ == "quick" else 5, 2)
-        ch, rep = shapes[int(s[1:])]
-        chl, repl = [list(c) for c in ch], list(rep)
-        if kind == "t1":
+        if kind != "t3":
+            shapes, _ = c13.generate(4 if tier_ == "quick" else 5, 2)
+            ch, rep = shapes[int(s[1:])]
+            chl, repl = [list(c) for c in ch], list(rep)
+        if kind == "t3":
+            root = H.witness_graphs()[s]
+        elif kind == "t1":
             root, _, _ = H.build_t1(chl, repl, rest[0], seed=seed(),
                                     leaf=("mix" if rest[0].startswith("mixed") else
                                           "sp" if rest[0] in ("ilshape", "phshape", "recvshape",
@@ -199,6 +205,11 @@ def main(tier: str, only: dict | None = None) -> int:
         for p in parts:
             records += p["records"]
             c13._merge(stats, p["stats"])
+        # deterministic edge-kind witnesses (API-built, independent of the seed)
+        _winit()
+        for name, root in _W["H"].witness_graphs().items():
+            records.append(_W["H"].export_analyses(root, _W["H"].Interner(), f"t3/{name}"))
+            stats["graphs"] = stats.get("graphs", 0) + 1
         val = judge(run, records)
         mc["states"] += gen["states"]
         mc["transitions"] += gen["transitions"]
